@@ -483,7 +483,11 @@ func (g *TG) Src(asset string, depth int, all bool) *Src {
 		return &Src{Kind: SAcct, Addr: g.AcctExpr("world")}
 	case "bounded":
 		bv, _ := g.MonValue("src.bound", asset, true, func() *big.Int { return g.CapValue("src.bound") })
-		return &Src{Kind: SOver, Addr: g.AcctExpr(pickS(g, "src.acct", g.K.Accounts)), Bound: bv}
+		acct := pickS(g, "src.acct", g.K.Accounts)
+		if (!all || g.K.ShapeFaults) && g.pct("src.bounded.world", g.K.PWorld/2) {
+			acct = "world" // legal: @world with a (pointless) overdraft bound
+		}
+		return &Src{Kind: SOver, Addr: g.AcctExpr(acct), Bound: bv}
 	case "unbounded":
 		return &Src{Kind: SOver, Addr: g.AcctExpr(pickS(g, "src.acct", g.K.Accounts))}
 	case "inorder":
